@@ -337,6 +337,9 @@ class IncrementalTrackingSolver(Solver):
     def reset_assertions(self):
         self._reset_assertions()
         self._assertion_stack = []
+        # All the levels are gone, including the one of a pending pop
+        self._backtrack_points = []
+        self.pending_pop = False
         self._last_command = "reset_assertions"
 
     def _add_assertion(self, formula, named=None) -> FNode:
@@ -351,6 +354,7 @@ class IncrementalTrackingSolver(Solver):
         """
         raise NotImplementedError
 
+    @clear_pending_pop
     def add_assertion(self, formula: FNode, named: Optional[str]=None):
         tracked = self._add_assertion(formula, named=named)
         self._assertion_stack.append(tracked)
@@ -359,6 +363,7 @@ class IncrementalTrackingSolver(Solver):
     def _solve(self, assumptions=None):
         raise NotImplementedError
 
+    @clear_pending_pop
     def solve(self, assumptions: Optional[Iterable[FNode]]=None) -> bool:
         try:
             res = self._solve(assumptions=assumptions)
@@ -374,6 +379,7 @@ class IncrementalTrackingSolver(Solver):
     def _push(self, levels: int=1):
         raise NotImplementedError
 
+    @clear_pending_pop
     def push(self, levels: int=1):
         self._push(levels=levels)
         point = len(self._assertion_stack)
@@ -384,6 +390,7 @@ class IncrementalTrackingSolver(Solver):
     def _pop(self, levels: int=1):
         raise NotImplementedError
 
+    @clear_pending_pop
     def pop(self, levels: int=1):
         self._pop(levels=levels)
         for _ in range(levels):
